@@ -120,7 +120,10 @@ func (m *fmdns) SetAutoAccept(bool)                  { m.r.add("mdns.SetAutoAcce
 func (m *fmdns) QRCodeText() string                  { return "" }
 func (m *fmdns) RequestMdnsEntries()                 { m.r.add("mdns.Request") }
 
-type freader struct{ r *recorder }
+type freader struct {
+	r      *recorder
+	onDisc func() // run once inside the next disconnect notification (another goroutine acting while the application is in it)
+}
 
 func name(ski string) string {
 	if n, ok := nameOf[util.NormalizeSKI(ski)]; ok {
@@ -129,7 +132,13 @@ func name(ski string) string {
 	return "?" + ski
 }
 func (f *freader) RemoteSKIConnected(ski string)    { f.r.add("Connected:" + name(ski)) }
-func (f *freader) RemoteSKIDisconnected(ski string) { f.r.add("Disconnected:" + name(ski)) }
+func (f *freader) RemoteSKIDisconnected(ski string) {
+	f.r.add("Disconnected:" + name(ski))
+	if g := f.onDisc; g != nil {
+		f.onDisc = nil
+		g()
+	}
+}
 func (f *freader) SetupRemoteDevice(ski string, _ api.ShipConnectionDataWriterInterface) api.ShipConnectionDataReaderInterface {
 	f.r.add("Setup:" + name(ski))
 	return nil
@@ -267,7 +276,8 @@ var sharedErr = errors.New("handshake error")
 
 func runOnce(b *behT, respell bool, seed int) (runObs, string) {
 	rec := &recorder{}
-	h := hub.NewHub(&freader{rec}, &fmdns{rec}, 0, theCert, api.NewServiceDetails("ffff456789abcdef0123456789abcdef0123ffff"))
+	rd := &freader{r: rec}
+	h := hub.NewHub(rd, &fmdns{rec}, 0, theCert, api.NewServiceDetails("ffff456789abcdef0123456789abcdef0123ffff"))
 	lst := map[string]*listener{}
 	for k := range skiOf {
 		lst[k] = newListener()
@@ -342,6 +352,16 @@ func runOnce(b *behT, respell bool, seed int) (runObs, string) {
 			h.SetupRemoteDevice(conns[a.I-1].ski, nil)
 		case "Closed":
 			h.HandleConnectionClosed(conns[a.I-1], a.C)
+		case "ClosedRe":
+			// while the application is being told that the service is disconnected, a new connection for it gets registered
+			old := conns[a.I-1]
+			rd.onDisc = func() {
+				fc := &fakeConn{r: rec, idx: len(conns) + 1, ski: old.ski, dh: &fakeDH{id: len(conns)}, st: shipNum["ServerWait"]}
+				conns = append(conns, fc)
+				h.VerifRegisterConnection(fc)
+			}
+			h.HandleConnectionClosed(old, a.C)
+			rd.onDisc = nil
 		case "ReportMdns":
 			entries := map[string]*api.MdnsEntry{}
 			for _, k := range a.Vis {
